@@ -90,6 +90,12 @@ def m1(model: Model, rep: Report):
     # circuit side count vs kernel length, region by region
     f2, ev2, qps = qec_paths(model)
     n = sym(f2.param_names[1])
+    # the single ancilla acquisition of a 0-round block closes the block: it carries the 'final' tag (the kernel reports no stabiliser index there)
+    p00 = region_path(qps, n, ZERO)
+    ms0 = [e for e in emits(p00, p00.value) if e.cls == "DispersiveMeasure"]
+    rep.check(len(ms0) == 1 and ms0[0].field("acquisition_tag") == ("const", "final"), "C13.M1", "get_circuit_qec_with_detectors[0 rounds: ancilla acquisition tagged final]", f2.loc,
+              found=[show(m.field("acquisition_tag")) if m.field("acquisition_tag") is not None else None for m in ms0], required="'final'",
+              what="the ancilla acquisition of a 0-round block is reported under another category than the kernel's", detail="zero-tag")
     Kc = model.cls("RepetitionIndexKernel")
     regions = [("n=0", ZERO)] + REGIONS
     for rname, val in regions:
